@@ -13,39 +13,39 @@ Open Scope N_scope.
 Theorem C18_affinity_tcp :
   forall (SipH : ident -> N) (n : N) (p q : bytes),
     0 < n -> identity_tcp p = identity_tcp q -> identity_tcp p <> None ->
-    c18_dom p = true -> c18_dom q = true -> raw_as_ethernet p = false -> raw_as_ethernet q = false ->
+    c18_dom p = true -> c18_dom q = true ->
     tcp_worker SipH n p = tcp_worker SipH n q /\ exists w, tcp_worker SipH n p = Some w /\ w < n.
 Proof. exact affinity_tcp. Qed.
 Check C18_affinity_tcp :
   forall (SipH : ident -> N) (n : N) (p q : bytes),
     0 < n -> identity_tcp p = identity_tcp q -> identity_tcp p <> None ->
-    c18_dom p = true -> c18_dom q = true -> raw_as_ethernet p = false -> raw_as_ethernet q = false ->
+    c18_dom p = true -> c18_dom q = true ->
     tcp_worker SipH n p = tcp_worker SipH n q /\ exists w, tcp_worker SipH n p = Some w /\ w < n.
 Print Assumptions C18_affinity_tcp.
 
 Theorem C18_affinity_tls :
   forall (SipH : ident -> N) (n : N) (p q : bytes),
     0 < n -> identity_tls p = identity_tls q -> identity_tls p <> None ->
-    c18_dom p = true -> c18_dom q = true -> raw_as_ethernet p = false -> raw_as_ethernet q = false ->
+    c18_dom p = true -> c18_dom q = true ->
     tls_worker SipH n p = tls_worker SipH n q /\ exists w, tls_worker SipH n p = Some w /\ w < n.
 Proof. exact affinity_tls. Qed.
 Check C18_affinity_tls :
   forall (SipH : ident -> N) (n : N) (p q : bytes),
     0 < n -> identity_tls p = identity_tls q -> identity_tls p <> None ->
-    c18_dom p = true -> c18_dom q = true -> raw_as_ethernet p = false -> raw_as_ethernet q = false ->
+    c18_dom p = true -> c18_dom q = true ->
     tls_worker SipH n p = tls_worker SipH n q /\ exists w, tls_worker SipH n p = Some w /\ w < n.
 Print Assumptions C18_affinity_tls.
 
 Theorem C18_affinity_http :
   forall (SipH : ident -> N) (n : N) (p q : bytes),
     0 < n -> identity_http p = identity_http q -> identity_http p <> None ->
-    c18_dom p = true -> c18_dom q = true -> raw_as_ethernet p = false -> raw_as_ethernet q = false ->
+    c18_dom p = true -> c18_dom q = true ->
     http_worker SipH n p = http_worker SipH n q /\ exists w, http_worker SipH n p = Some w /\ w < n.
 Proof. exact affinity_http. Qed.
 Check C18_affinity_http :
   forall (SipH : ident -> N) (n : N) (p q : bytes),
     0 < n -> identity_http p = identity_http q -> identity_http p <> None ->
-    c18_dom p = true -> c18_dom q = true -> raw_as_ethernet p = false -> raw_as_ethernet q = false ->
+    c18_dom p = true -> c18_dom q = true ->
     http_worker SipH n p = http_worker SipH n q /\ exists w, http_worker SipH n p = Some w /\ w < n.
 Print Assumptions C18_affinity_http.
 
@@ -53,13 +53,13 @@ Print Assumptions C18_affinity_http.
 Theorem C18_http_both_directions :
   forall (SipH : ident -> N) (n : N) (p q : bytes) (e : endpoints),
     analyzer_endpoints p = Some e -> analyzer_endpoints q = Some (flip e) ->
-    c18_dom p = true -> c18_dom q = true -> raw_as_ethernet p = false -> raw_as_ethernet q = false ->
+    c18_dom p = true -> c18_dom q = true ->
     http_worker SipH n p = http_worker SipH n q.
-Proof. exact http_both_directions. Qed.
+Proof. exact http_both_directions_all. Qed.
 Check C18_http_both_directions :
   forall (SipH : ident -> N) (n : N) (p q : bytes) (e : endpoints),
     analyzer_endpoints p = Some e -> analyzer_endpoints q = Some (flip e) ->
-    c18_dom p = true -> c18_dom q = true -> raw_as_ethernet p = false -> raw_as_ethernet q = false ->
+    c18_dom p = true -> c18_dom q = true ->
     http_worker SipH n p = http_worker SipH n q.
 Print Assumptions C18_http_both_directions.
 
@@ -70,26 +70,33 @@ Example C18_affinity_hypotheses_satisfiable :
   let q := hexb (bs "02000000000102000000000208004700003400004000330600000a000002c0a80101010101010101010101bb303900000009000000026012721000000000020405b4") in
   let e := {| e_src := V4 3232235777; e_dst := V4 167772162; e_sport := 12345; e_dport := 443 |} in
   analyzer_endpoints p = Some e /\ analyzer_endpoints q = Some (flip e) /\
-  c18_dom p = true /\ c18_dom q = true /\ raw_as_ethernet p = false /\ raw_as_ethernet q = false /\
+  c18_dom p = true /\ c18_dom q = true /\
   identity_http p = identity_http q /\ identity_http p <> None /\ http_ident p = http_ident q /\
   identity_tls p <> identity_tls q.
 Proof. vm_compute. repeat split; try reflexivity; discriminate. Qed.
 
-(* known class (open finding C18-raw-86dd): inhabited, and affinity fails on it for a concrete hasher *)
-Lemma Known_raw_as_ethernet_refuted :
-  exists (SipH : ident -> N) (n : N) (p q : bytes),
-    0 < n /\ identity_tcp p = identity_tcp q /\ identity_tcp p <> None /\
-    c18_dom p = true /\ c18_dom q = true /\ raw_as_ethernet p = true /\
-    tcp_worker SipH n p <> tcp_worker SipH n q /\
-    (identity_tls p <> None /\ tls_worker SipH n p = None).
+(* the former known class (C18-raw-86dd, repaired: the hash functions take the Ethernet reading only when the
+   frame can hold the IP header its ethertype announces, as parse_packet does): the class is empty, and the old
+   witness -- two raw IPv4 SYNs from 134.221.16.7, 40 bytes, differing in the last byte -- now hash alike *)
+Theorem C18_former_class_empty : forall f : bytes, raw_as_ethernet f = false.
+Proof. exact raw_as_ethernet_empty. Qed.
+Check C18_former_class_empty : forall f : bytes, raw_as_ethernet f = false.
+Print Assumptions C18_former_class_empty.
+
+Lemma Known_raw_as_ethernet_former_witness_agrees :
+  identity_tcp raw_86dd_a = identity_tcp raw_86dd_b /\ identity_tcp raw_86dd_a <> None /\
+  c18_dom raw_86dd_a = true /\ c18_dom raw_86dd_b = true /\
+  (forall SipH n, tcp_worker SipH n raw_86dd_a = tcp_worker SipH n raw_86dd_b) /\
+  (forall SipH n, http_worker SipH n raw_86dd_a = http_worker SipH n raw_86dd_b) /\
+  (forall SipH n, tls_worker SipH n raw_86dd_a = tls_worker SipH n raw_86dd_b) /\
+  (forall SipH n, tls_worker SipH n raw_86dd_a <> None).
 Proof.
-  exists toy_hash, 2, raw_86dd_a, raw_86dd_b.
-  destruct raw_as_ethernet_refutes_affinity as (H1 & H2 & H3 & H4 & H5 & H6 & H7 & H8 & H9 & H10).
-  repeat split; auto; try reflexivity.
+  destruct raw_as_ethernet_former_witness_agrees as (H1 & H2 & H3 & H4 & H5 & H6 & H7 & H8 & _).
+  repeat split; auto.
   - rewrite H2. discriminate.
-  - rewrite H7, H8. discriminate.
+  - intros SipH n. unfold tls_worker. destruct (tls_ident raw_86dd_a); [discriminate | now elim H8].
 Qed.
-Print Assumptions Known_raw_as_ethernet_refuted.
+Print Assumptions Known_raw_as_ethernet_former_witness_agrees.
 
 (* T2, accounting.  One pool of any of the three kinds, any number of workers and dispatcher threads, any
    interleaving of the shared-memory steps of concurrent dispatch calls and of worker consumption, whatever the
